@@ -941,8 +941,14 @@ func (f *SQLFormatter) formatExpression(expr ast.Expression) error {
 		// Quote alias if it contains special characters or is a reserved keyword
 		f.formatIdentifier(e.Alias)
 	default:
-		// Fallback for unsupported expressions
-		f.builder.WriteString(expr.TokenLiteral())
+		// Expressions without a dedicated layout (CAST, ::, tuples, arrays, INTERVAL, ...)
+		// are printed by their own serialiser; printing only the node's name
+		// ("CAST") produced text that does not parse.
+		if s, ok := expr.(interface{ SQL() string }); ok {
+			f.builder.WriteString(s.SQL())
+		} else {
+			f.builder.WriteString(expr.TokenLiteral())
+		}
 	}
 
 	return nil
